@@ -628,6 +628,36 @@ func main() {
 		emitStrList("vectorSizeTable", tbl, len(tbl) > 0)
 	}
 
+	// --- provenance of returned values (C11): how getDocument and the listing branch build Metadata
+	{
+		var stmts []string
+		if fd := method("collection.go", "Collection", "getDocument"); fd != nil {
+			for _, st := range fd.Body.List {
+				if _, isIf := st.(*ast.IfStmt); isIf {
+					continue
+				}
+				stmts = append(stmts, strings.Join(strings.Fields(src(st)), " "))
+			}
+		}
+		emitStrList("getDocumentBody", stmts, len(stmts) > 0)
+		var lst []string
+		if fs := method("collection.go", "Collection", "Search"); fs != nil {
+			for _, call := range findCalls(fs.Body, "IterateSortedRecords") {
+				if len(call.Args) == 1 {
+					if fl, ok := call.Args[0].(*ast.FuncLit); ok {
+						for _, st := range fl.Body.List {
+							t := strings.Join(strings.Fields(src(st)), " ")
+							if strings.Contains(t, "etadata") && !strings.HasPrefix(t, "if ") {
+								lst = append(lst, t)
+							}
+						}
+					}
+				}
+			}
+		}
+		emitStrList("listingMetadataStmts", lst, len(lst) > 0)
+	}
+
 	// --- distance functions: statement shapes
 	for _, name := range []string{"euclideanDistance", "angularDistance"} {
 		fd := funcDecl("collection.go", name)
